@@ -759,7 +759,7 @@ def _fixed_case(rnd, n, ploidy, self_step):
 def gen_histories(rnd, tier, which):
     """which: 'protocols-small' | 'protocols-large' | 'kernels-polyploid'"""
     if which == "protocols-small":
-        n_cases = 1800 if tier == "quick" else 25000
+        n_cases = 1400 if tier == "quick" else 25000
         for c in range(n_cases):
             while True:
                 case = _history(rnd, big=False, want_bad=False, protos=list(PROTOCOLS))
@@ -767,7 +767,7 @@ def gen_histories(rnd, tier, which):
                     break
             yield case
     elif which == "protocols-large":
-        n_cases = 350 if tier == "quick" else 6000
+        n_cases = 300 if tier == "quick" else 6000
         for c in range(n_cases):
             while True:
                 case = _history(rnd, big=True, want_bad=False, protos=list(PROTOCOLS) + ["mat_mate"], max_steps=6)
@@ -775,7 +775,7 @@ def gen_histories(rnd, tier, which):
                     break
             yield case
     else:
-        n_cases = 1800 if tier == "quick" else 25000
+        n_cases = 1400 if tier == "quick" else 25000
         for c in range(n_cases):
             while True:
                 if c % 2 == 0:
@@ -833,7 +833,7 @@ def gen_exhaustive(rnd, tier, maters=None):
     pattern), every selection of <= 2 parents (with repetition), every mating routine, scripted crossovers"""
     import itertools
     maters = list(maters or ALL_MATERS)
-    scopes = [(1, 1, 1.0), (2, 1, 1.0), (1, 2, 1.0), (2, 2, 0.03 if tier == "quick" else 1.0), (3, 1, 0.05 if tier == "quick" else 1.0)]
+    scopes = [(1, 1, 1.0), (2, 1, 1.0), (1, 2, 1.0), (2, 2, 0.02 if tier == "quick" else 1.0), (3, 1, 0.04 if tier == "quick" else 1.0)]
     if tier != "quick":
         scopes += [(1, 3, 1.0), (3, 2, 0.005), (2, 3, 0.01)]
     patterns = [[0.0], [0.999], [0.0, 0.999], [0.999, 0.0, 0.0]]
@@ -887,7 +887,7 @@ def _drive(ctx, cases, budget_s):
             if len(ctx.failures) >= 12:
                 break
         # the budget is CPU time (case counts stay comparable on a loaded machine), with a wall-clock guard
-        if time.process_time() - c0 > budget_s or time.time() - t0 > 2.0 * budget_s:
+        if time.process_time() - c0 > budget_s or time.time() - t0 > 1.6 * budget_s:
             ctx.notes.append("time budget reached after %d cases" % ctx.evaluations)
             break
     if per_cls:
@@ -920,14 +920,14 @@ RULE = ("seeded random closed histories (founder loci drawn from fixed/rare/half
 
 
 @unit(P, N1, "R", bounded=True,
-      note="bounded: founders <= 12, markers <= 12, traits <= 3, <= 6 generations, counts <= 6x2x4; quick 1800 / thorough 25000 seeded histories")
+      note="bounded: founders <= 12, markers <= 12, traits <= 3, <= 6 generations, counts <= 6x2x4; quick 1400 / thorough 25000 seeded histories")
 def u_ring_small(ctx):
     ctx.rule = RULE
     _drive(ctx, gen_histories(ctx.rng, ctx.tier, "protocols-small"), _budget(ctx))
 
 
 @unit(P, N2, "R", bounded=True,
-      note="bounded: founders 20..130, progeny sets up to 130 (+parents), <= 6 generations; quick 350 / thorough 6000 seeded histories; "
+      note="bounded: founders 20..130, progeny sets up to 130 (+parents), <= 6 generations; quick 300 / thorough 6000 seeded histories; "
            "sizes with ploidy*n in the rounding-prone set are generated in their own unit")
 def u_ring_large(ctx):
     ctx.rule = RULE
@@ -936,7 +936,7 @@ def u_ring_large(ctx):
 
 @unit(P, N3, "R", bounded=True,
       note="bounded: kernels on <= 130 individuals, <= 6 generations; polyploid selection-only chains of <= 4 nested selections, n <= 130; "
-           "quick 1800 / thorough 25000 seeded cases")
+           "quick 1400 / thorough 25000 seeded cases")
 def u_ring_kernels(ctx):
     ctx.rule = RULE + "; odd cases: ploidy 1/3/4/6 phased+unphased matrices under nested selections"
     _drive(ctx, gen_histories(ctx.rng, ctx.tier, "kernels-polyploid"), _budget(ctx))
@@ -951,7 +951,7 @@ def u_ring_fixed(ctx):
     _drive(ctx, gen_fixed(ctx.rng, ctx.tier), _budget(ctx))
 
 
-EXH_NOTE = ("bounded: diploid founders (n,p) in {(1,1),(2,1),(1,2)} exhaustive, (3,1) sampled 5% quick / exhaustive thorough, (2,2) sampled 3% "
+EXH_NOTE = ("bounded: diploid founders (n,p) in {(1,1),(2,1),(1,2)} exhaustive, (3,1) sampled 4% quick / exhaustive thorough, (2,2) sampled 2% "
             "quick / exhaustive thorough, (1,3) exhaustive and (3,2) 0.5%, (2,3) 1% sampled in thorough; all 3^p sign patterns; "
             "4 scripted crossover patterns; mating routines: ")
 EXH_RULE = ("exhaustive enumeration of 0/1 founder matrices, all effect sign patterns in {-,0,+}^p as trait columns with "
